@@ -624,7 +624,15 @@ def run_ss(c):
         if isinstance(j, list):
             return any(has_bool(v) for v in j)
         return isinstance(j, bool)
-    feats = {"kind": "ss", "info_bool": has_bool(c["info"]), "vartype": c["vartype"], "use_bytes": c["use_bytes"], "pack": c["pack"], "route": c["route"],
+    def has_marker(j):
+        if isinstance(j, dict):
+            if "__arr__" in j:
+                return False
+            return j.get("type") in ("array", "SampleSet", "BinaryQuadraticModel") or any(has_marker(v) for v in j.values())
+        if isinstance(j, list):
+            return any(has_marker(v) for v in j)
+        return False
+    feats = {"kind": "ss", "info_bool": has_bool(c["info"]), "info_type_marker": has_marker(c["info"]), "vartype": c["vartype"], "use_bytes": c["use_bytes"], "pack": c["pack"], "route": c["route"],
              "two_words": n > 32, "dtype": str(sample.dtype)}
     try:
         doc = ss.to_serializable(use_bytes=c["use_bytes"], pack_samples=c["pack"])
